@@ -120,6 +120,7 @@ claim("C20",
       "are outside. " + TRUSTED, "4 C20")
 
 ALL = ["C%02d" % i for i in range(1, 21)]
+assert set(claims) | set(na) <= set(ALL), "unknown property id in claims: %r" % (set(claims) - set(ALL))
 for p in ALL:
     if p not in claims and p not in na:
         na[p] = "check not yet built in this session (solver-based harness planned, see DESIGN.md section 4)"
